@@ -1,129 +1,19 @@
-(* C02: what the driver evaluates on every observed case.
+(* C02: what the driver evaluates on every observed case (definitions in C02_Case.v).
 
-   A case is one forced schedule on one locker.  The harness performs one API-level action at a time (a caller
-   enters Lock/RLock/Locks/RLocks in its own goroutine, or a caller that has returned performs the matching
-   unlock), waits until every goroutine has returned or is parked, and records what it sees: who has returned,
-   the hook's (readCount, writeCount) for every present key, the number of entries.  For every action it also
-   supplies the fine-grained labels (found by its own untrusted search) that resolve the runtime's choices.
-
-   case_accept : the labels are of the kinds this action may cause, they are a run of the model, the state
-                 reached is quiescent, and it implies exactly the observation made.
-   case_holds  : the property's clauses on the actions and observations alone. *)
-From Coq Require Import List Bool Arith ZArith Lia.
-Require Export C02_Model.
+   case_accept : the labels are of the kinds each action may cause, they are a run of the model, every state reached at a
+                 round boundary is quiescent and implies exactly the observation made (model_matches), and the schedule
+                 was driven to the end (drained: a fact about the action list alone).
+   case_holds  : the property's clauses on the actions and observations alone.
+   case_sound  : every clause of case_holds FOLLOWS from the replayed run of the model (C02_Complete.v): hook counts and
+                 entry count = the live callers, exclusion among returned callers, returned is live, a blocked caller
+                 conflicts with another live caller, some caller has returned while ordered callers are inside, nothing
+                 blocked in an unlock or hook. *)
+From Coq Require Import List Bool Arith.
+Require Export C02_Case.
+Require Import C02_Complete.
 Import ListNotations.
 
-Inductive act := ACall (t : nat) (ks : list nat) (w : bool) | ARel (t : nat).
-Record obs := Ob { o_ret : list nat;                       (* callers whose call has returned, not yet unlocked; ascending *)
-                o_counts : list (nat * (Z * Z));         (* present keys, ascending: (key, (readCount, writeCount)); Go ints, may be negative in a broken locker *)
-                o_entries : nat;                         (* VerifEntries *)
-                o_blocked : bool }.                      (* the unlock call of this round, or a hook read, never came back *)
-Record round := Rd { r_act : act; r_labels : list flabel; r_obs : obs }.
-Record case := Cs { c_shard : list (nat * nat);   (* routing of the keys used (absent = shard 0) *)
-                 c_nthreads : nat; c_nkeys : nat;
-                 c_rounds : list round }.
-
-Fixpoint shard_of (m : list (nat * nat)) (k : nat) : nat :=
-  match m with [] => 0 | (k', i) :: r => if Nat.eqb k k' then i else shard_of r k end.
-
-Definition mem (x : nat) (l : list nat) : bool := existsb (Nat.eqb x) l.
-Fixpoint nlist_eqb (a b : list nat) : bool :=
-  match a, b with [] , [] => true | x :: a', y :: b' => Nat.eqb x y && nlist_eqb a' b' | _, _ => false end.
-Definition pair_eqb (a b : nat * (Z * Z)) : bool :=
-  Nat.eqb (fst a) (fst b) && Z.eqb (fst (snd a)) (fst (snd b)) && Z.eqb (snd (snd a)) (snd (snd b)).
-Fixpoint counts_eqb (a b : list (nat * (Z * Z))) : bool :=
-  match a, b with [], [] => true | x :: a', y :: b' => pair_eqb x y && counts_eqb a' b' | _, _ => false end.
-Definition obs_eqb (a b : obs) : bool :=
-  nlist_eqb (o_ret a) (o_ret b) && counts_eqb (o_counts a) (o_counts b) && Nat.eqb (o_entries a) (o_entries b) &&
-  Bool.eqb (o_blocked a) (o_blocked b).
-
-(* ---------------- accept ---------------- *)
-Definition internal (l : flabel) : bool :=
-  match l with FArrive _ | FAnnounce _ _ | FGrant _ | FToken _ _ => true | _ => false end.
-Definition labels_ok (a : act) (ls : list flabel) : bool :=
-  match a, ls with
-  | ACall t ks w, FCall t' ks' w' :: rest =>
-      Nat.eqb t t' && nlist_eqb ks ks' && Bool.eqb w w' &&
-      forallb (fun l => internal l || match l with FReg x => Nat.eqb x t | _ => false end) rest
-  | ARel t, FRelease t' :: rest =>
-      Nat.eqb t t' && forallb (fun l => internal l || match l with FUnlock x => Nat.eqb x t | _ => false end) rest
-  | _, _ => false
-  end.
-Definition act_in_range (nt nk : nat) (a : act) : bool :=
-  match a with ACall t ks _ => (t <? nt) && forallb (fun k => k <? nk) ks | ARel t => t <? nt end.
-
-Definition present_counts (nk : nat) (s : fstate) : list (nat * (Z * Z)) :=
-  flat_map (fun k => match key_counts s k with Some c => [(k, (Z.of_nat (fst c), Z.of_nat (snd c)))] | None => [] end) (seq 0 nk).
-Definition model_obs (nt nk : nat) (s : fstate) : obs :=
-  {| o_ret := filter (returned s) (seq 0 nt); o_counts := present_counts nk s; o_entries := length (present_counts nk s);
-     o_blocked := false |}.
-
-Fixpoint accept_rounds (sh : nat -> nat) (nt nk : nat) (s : fstate) (rs : list round) : bool :=
-  match rs with
-  | [] => true
-  | r :: rest =>
-      act_in_range nt nk (r_act r) && labels_ok (r_act r) (r_labels r) &&
-      match frun sh s (r_labels r) with
-      | Some s' => quiescent nt s' && obs_eqb (model_obs nt nk s') (r_obs r) && accept_rounds sh nt nk s' rest
-      | None => false
-      end
-  end.
-Definition model_matches (c : case) : bool :=
-  accept_rounds (shard_of (c_shard c)) (c_nthreads c) (c_nkeys c) finit (c_rounds c).
-
-(* ---------------- holds: the clauses of the property on actions and observations ---------------- *)
-Definition caller := (nat * (list nat * bool))%type.
-Definition cid (c : caller) := fst c.
-Definition cks (c : caller) := fst (snd c).
-Definition cw (c : caller) := snd (snd c).
-Definition live_after (L : list caller) (a : act) : list caller :=
-  match a with
-  | ACall t ks w => L ++ [(t, (ks, w))]
-  | ARel t => filter (fun c => negb (Nat.eqb (cid c) t)) L
-  end.
-Definition shares (c c' : caller) : bool := existsb (fun k => mem k (cks c')) (cks c).
-Definition conflicts (c c' : caller) : bool := (cw c || cw c') && shares c c'.
-
-(* exclusion: among callers that have returned and not unlocked, a key of a writer is a key of nobody else
-   (all keys of a returned multi-key caller count as held: "holds all listed keys at once") *)
-Definition excl_ok (L : list caller) (o : obs) : bool :=
-  let R := filter (fun c => mem (cid c) (o_ret o)) L in
-  forallb (fun c => forallb (fun c' => Nat.eqb (cid c) (cid c') || negb (conflicts c c')) R) R.
-(* whoever has returned is a live caller *)
-Definition ret_live (L : list caller) (o : obs) : bool := forallb (fun t => existsb (fun c => Nat.eqb (cid c) t) L) (o_ret o).
-(* key independence: a live caller that has not returned shares a key, in a conflicting mode, with another live caller *)
-Definition indep_ok (L : list caller) (o : obs) : bool :=
-  forallb (fun c => mem (cid c) (o_ret o) || existsb (fun c' => negb (Nat.eqb (cid c) (cid c')) && conflicts c c') L) L.
-(* per-key state = exactly the live callers (holders and waiters); hence no per-key state once all are released *)
-Definition expect_counts (nk : nat) (L : list caller) : list (nat * (Z * Z)) :=
-  flat_map (fun k => let r := length (filter (fun c => negb (cw c) && mem k (cks c)) L) in
-                     let w := length (filter (fun c => cw c && mem k (cks c)) L) in
-                     if Nat.eqb (r + w) 0 then [] else [(k, (Z.of_nat r, Z.of_nat w))]) (seq 0 nk).
-Definition counts_ok (nk : nat) (L : list caller) (o : obs) : bool :=
-  counts_eqb (o_counts o) (expect_counts nk L) && Nat.eqb (o_entries o) (length (expect_counts nk L)).
-(* no deadlock: while somebody is inside the locker somebody has returned (and can unlock) *)
-Definition progress_ok (L : list caller) (o : obs) : bool := is_nil L || negb (is_nil (o_ret o)).
-
-Fixpoint increasing (l : list nat) : bool :=
-  match l with x :: ((y :: _) as r) => (x <? y) && increasing r | _ => true end.
-Definition act_ordered (a : act) : bool := match a with ACall _ ks _ => increasing ks | ARel _ => true end.
-Definition all_ordered (rs : list round) : bool := forallb (fun r => act_ordered (r_act r)) rs.
-
-Fixpoint holds_rounds (ordered : bool) (nk : nat) (L : list caller) (rs : list round) : bool :=
-  match rs with
-  | [] => negb ordered || is_nil L            (* every ordered program ran to completion *)
-  | r :: rest =>
-      let L' := live_after L (r_act r) in
-      negb (o_blocked (r_obs r)) && ret_live L' (r_obs r) && excl_ok L' (r_obs r) && indep_ok L' (r_obs r) && counts_ok nk L' (r_obs r) &&
-      (negb ordered || progress_ok L' (r_obs r)) && holds_rounds ordered nk L' rest
-  end.
-
-Definition case_holds (c : case) : bool := holds_rounds (all_ordered (c_rounds c)) (c_nkeys c) [] (c_rounds c).
-
-(* The implementation behaved as the model AND the property's clauses hold of what was observed.  The clauses
-   are theorems of the model for every label sequence (C02_Props.v); see level_note for which of them are also
-   proved to follow from model_matches alone. *)
-Definition case_accept (c : case) : bool := model_matches c && case_holds c.
+Definition case_accept (c : case) : bool := model_matches c && drained c.
 
 Theorem case_sound : forall c, case_accept c = true -> case_holds c = true.
-Proof. intros c H. unfold case_accept in H. apply andb_prop in H. exact (proj2 H). Qed.
+Proof. intros c H. unfold case_accept in H. apply andb_prop in H. destruct H as [H1 H2]. exact (model_matches_holds c H1 H2). Qed.
